@@ -68,3 +68,8 @@ pub fn vx_map_index<'a, V>(m: &'a HashMap<String, V>, k: &String) -> (r: &'a V)
     requires m.view_spec().dom().contains(k@)
     ensures *r == m.view_spec()[k@]
 { unimplemented!() }
+// `Value: Clone` (derived in the real source): the clone is an equal value
+impl Clone for Value {
+    #[verifier::external_body]
+    fn clone(&self) -> (r: Self) ensures r == *self { unimplemented!() }
+}
